@@ -2,6 +2,7 @@ import WtfModel.Model.Search
 import WtfModel.Model.NormQ
 import WtfModel.Model.Legacy0
 import WtfModel.Model.Tfidf
+import WtfModel.Model.Boosts
 import WtfModel.Gen.Constants
 import Driver.Util
 
@@ -10,12 +11,24 @@ import Driver.Util
   (`Tuning`) the real code computed for this case.  Lines:
     host <hex> | ri <cp> <lower> <foldrep> <flags> | cmd <11 fields> | idf <df> <f:>
     nq <hex> | pq <actions> <targets> <keywords> <enhanced> | ib <f:,..|-> | cb <f:,..|-> | tf none|-|<doc>:<f:>,..
+       (pq / ib / cb: values of the real NLP code; answered `ok` iff the model's NLP layer yields the same values)
     fz -|<idx>:<score>,..
     search <q> <limit> <boosts> <pipelineOnly> <pipelineBoost> <useFuzzy> <thr> <useNLP> <cap> <allPlat> <platforms> <noCross>
     tokens <hex> | passes <doc> <allPlat> <platforms> <noCross> <pipelineOnly>
+  domain `boosts` (same state, harness/dom_boosts.go): the MODEL's NLP layer (Model/Boosts.lean, Model/Nlp.lean)
+    mpq <hex q> → pq <actions> <targets> <keywords> <enhanced> <intent>
+    mctx <hex q> → ctx <actionTerms> <targetTerms> <keywordTerms> <hints> <contexts> <intent>
+    mib <hex q> → ib <f:,..|->        mcb <hex q> → cb <f:,..|->       (one value per document)
 -/
 namespace Driver.Search
 open Wtf Wtf.Search Wtf.Index
+
+/-- the model's NLP layer for one normalised query, tabulated per document (pure memoisation of `Boosts.nlpOut`) -/
+structure NlpCache where
+  nq : Bytes
+  out : NlpOut Float
+  ib : List Float
+  cb : List Float
 
 structure DS where
   host : Bytes := []
@@ -33,6 +46,27 @@ structure DS where
   fz : List (Nat × Int) := []
   lg : List (Nat × Float) := []    -- math.Log(N/dc) table for the TF-IDF model
   tfIdx : Option (Tfidf.Index Float) := none   -- model TF-IDF index, built once per case
+  nlpDb : Option (List Cmd) := none            -- database the NLP factors are computed for, if not `db` (domain c03)
+  nqSeen : Bool := false                       -- an `nq` line was read: `pq` / `ib` / `cb` lines describe the normalised query `nq`
+  cache : Option NlpCache := none              -- memo of the model's NLP layer for `nq` (reset whenever db / ri / nq change)
+
+/-- the commands the per-document NLP factors refer to -/
+def DS.nlpCmds (d : DS) : List Cmd := d.nlpDb.getD d.db.toList
+
+/-- `Boosts.nlpOut` for the current `nq`, with both per-document factors evaluated once for every document -/
+def mkCache (d : DS) : NlpCache :=
+  let n : NlpOut Float := Boosts.nlpOut d.ri d.nlpCmds d.nq
+  let k := d.nlpCmds.length
+  let ib := ((List.range k).map n.intentBoost).toArray
+  let cb := ((List.range k).map n.cascade).toArray
+  { nq := d.nq, ib := ib.toList, cb := cb.toList,
+    -- outside the database both factors are `one`, as in `Boosts.nlpOutWith`
+    out := { n with intentBoost := fun i => ib.getD i 1.0, cascade := fun i => cb.getD i 1.0 } }
+
+def withCache (d : DS) : DS × NlpCache :=
+  match d.cache with
+  | some c => if c.nq == d.nq then (d, c) else let c := mkCache d; ({ d with cache := some c }, c)
+  | none => let c := mkCache d; ({ d with cache := some c }, c)
 
 def floatList? (s : String) : Option (List Float) :=
   if s == "-" then some [] else (s.splitOn ",").mapM floatOf?
@@ -50,8 +84,12 @@ def tuning (d : DS) : Tuning Float :=
     host := d.host
     ri := d.ri
     normQ := fun _ => d.nq
-    nlp := fun _ => { actions := d.actions, targets := d.targets, keywords := d.keywords, enhanced := d.enhanced,
-                      intentBoost := fun i => d.ib.getD i 1.0, cascade := fun i => d.cb.getD i 1.0 }
+    -- the NLP layer is the MODEL's (Model/Boosts.lean over Model/Nlp.lean): analysis of the normalised query and both
+    -- per-document factors.  The oracle lines `pq` / `ib` / `cb` (what the real code computed) are no longer inputs;
+    -- they are compared with the model's values when they are read (`oracleCheck`).
+    nlp := fun nq => match d.cache with
+      | some c => if c.nq == nq then c.out else Boosts.nlpOut d.ri d.nlpCmds nq
+      | none => Boosts.nlpOut d.ri d.nlpCmds nq
     -- the re-ranker is the MODEL's TF-IDF (Model/Tfidf.lean) whenever the real database has a searcher;
     -- the oracle `tf` line only says whether one exists (and is compared separately by the `tfidf` op)
     tfidf := match d.tf, d.tfIdx with
@@ -63,6 +101,22 @@ def tuning (d : DS) : Tuning Float :=
       let sameSet := d.fz.length == ms.length && d.fz.all (fun x => ms.contains x) && ms.all (fun x => d.fz.contains x)
       let sorted := (d.fz.zip (d.fz.drop 1)).all (fun (a, b) => a.2 ≥ b.2)
       if sameSet && sorted then d.fz else [] }
+
+def fmtBytesList (l : List Bytes) : String :=
+  if l.isEmpty then "-" else ",".intercalate (l.map (fun b => if b.isEmpty then "_" else Bytes.toHex b))
+
+def fmtFloatList (l : List Float) : String :=
+  if l.isEmpty then "-" else ",".intercalate (l.map fmtFloat)
+
+/-- an oracle line agrees with the model iff the values are identical (floats: same bits) -/
+def oracleCheck (what : String) (same : Bool) (model : String) : String :=
+  if same then "ok" else s!"oracle-differs-from-model {what} model={model}"
+
+/- Oracle lines are compared with the model only when they describe SearchUniversal's normalised query (an `nq` line
+   precedes them: domains search, c03, legacy).  Domain legacy2 feeds `pq` / `ib` of the *raw* query to the legacy
+   SearchWithNLP model without an `nq` line: there they stay inputs (`DS.nqSeen`). -/
+
+def sameBits (a b : List Float) : Bool := a.length == b.length && (a.zip b).all (fun (x, y) => x.toBits == y.toBits)
 
 def fmtResults (r : Except Fuzzy.Panic (List (Nat × Float))) : String :=
   match r with
@@ -79,14 +133,14 @@ def ensureIdx (d : DS) : DS :=
 def step (d : DS) (l : String) : DS × String :=
   match words l with
   | ["host", h] => match Bytes.ofHex h with
-    | some b => ({ d with host := b }, "ok")
+    | some b => ({ d with host := b, cache := none }, "ok")
     | none => (d, "bad-op")
   | ["ri", cp, lo, fr, fl] =>
     match natOf? cp, natOf? lo, natOf? fr, natOf? fl with
     | some cp, some lo, some fr, some fl =>
       let f : RuneFacts := { cp := cp, lower := lo, foldRep := fr, isLower := fl % 2 == 1, isUpper := (fl / 2) % 2 == 1,
                              isSpace := (fl / 4) % 2 == 1, isLetNum := (fl / 8) % 2 == 1 }
-      ({ d with ri := { table := f :: d.ri.table } }, "ok")
+      ({ d with ri := { table := f :: d.ri.table }, cache := none }, "ok")
     | _, _, _, _ => (d, "bad-op")
   | ["cmd", c, de, kw, tg, ni, pl, pi, cl, dl, kl, tl] =>
     match Bytes.ofHex c, Bytes.ofHex de, bytesList? kw, bytesList? tg, Bytes.ofHex ni, bytesList? pl,
@@ -94,24 +148,36 @@ def step (d : DS) (l : String) : DS × String :=
     | some c, some de, some kw, some tg, some ni, some pl, some cl, some dl, some kl, some tl =>
       ({ d with db := d.db.push { command := c, description := de, keywords := kw, tags := tg, niche := ni, platform := pl,
                                    pipeline := boolOf pi, commandLower := cl, descriptionLower := dl,
-                                   keywordsLower := kl, tagsLower := tl } }, "ok")
+                                   keywordsLower := kl, tagsLower := tl }, cache := none }, "ok")
     | _, _, _, _, _, _, _, _, _, _ => (d, "bad-op")
   | ["idf", df, v] =>
     match natOf? df, floatOf? v with
     | some df, some v => ({ d with idf := (df, v) :: d.idf }, "ok")
     | _, _ => (d, "bad-op")
   | ["nq", h] => match Bytes.ofHex h with
-    | some b => ({ d with nq := b }, "ok")
+    | some b => ({ d with nq := b, nqSeen := true, cache := none }, "ok")
     | none => (d, "bad-op")
   | ["pq", a, t, k, e] =>
     match bytesList? a, bytesList? t, bytesList? k, bytesList? e with
-    | some a, some t, some k, some e => ({ d with actions := a, targets := t, keywords := k, enhanced := e }, "ok")
+    | some a, some t, some k, some e =>
+      if !d.nqSeen then ({ d with actions := a, targets := t, keywords := k, enhanced := e }, "ok") else
+      let (d, c) := withCache d
+      let n := c.out
+      ({ d with actions := a, targets := t, keywords := k, enhanced := e },
+       oracleCheck "pq" (n.actions == a && n.targets == t && n.keywords == k && n.enhanced == e)
+         s!"{fmtBytesList n.actions} {fmtBytesList n.targets} {fmtBytesList n.keywords} {fmtBytesList n.enhanced}")
     | _, _, _, _ => (d, "bad-op")
   | ["ib", v] => match floatList? v with
-    | some l => ({ d with ib := l.toArray }, "ok")
+    | some l =>
+      if !d.nqSeen then ({ d with ib := l.toArray }, "ok") else
+      let (d, c) := withCache d
+      ({ d with ib := l.toArray }, oracleCheck "ib" (sameBits c.ib l) (fmtFloatList c.ib))
     | none => (d, "bad-op")
   | ["cb", v] => match floatList? v with
-    | some l => ({ d with cb := l.toArray }, "ok")
+    | some l =>
+      if !d.nqSeen then ({ d with cb := l.toArray }, "ok") else
+      let (d, c) := withCache d
+      ({ d with cb := l.toArray }, oracleCheck "cb" (sameBits c.cb l) (fmtFloatList c.cb))
     | none => (d, "bad-op")
   | ["tf", v] =>
     if v == "none" then ({ d with tf := none }, "ok") else
@@ -128,7 +194,7 @@ def step (d : DS) (l : String) : DS × String :=
       let o : Opts Float := { limit := lim, boosts := bo, pipelineOnly := boolOf po, pipelineBoost := pb, useFuzzy := boolOf uf,
                               fuzzyThreshold := thr, useNLP := boolOf un, topTermsCap := cap, allPlatforms := boolOf ap,
                               platforms := pls, noCross := boolOf nc }
-      let d := if o.useNLP then ensureIdx d else d
+      let d := if o.useNLP then (withCache (ensureIdx d)).1 else d
       (d, fmtResults (search (tuning d) d.db.toList q o))
     | _, _, _, _, _, _, _ => (d, "bad-op")
   | ["lg", dc, v] =>
@@ -144,6 +210,32 @@ def step (d : DS) (l : String) : DS × String :=
         | some idx => Tfidf.search d.ri Float.sqrt 0.01 idx q d.db.size
         | none => []
       (d, r.foldl (fun acc (i, s) => acc ++ s!" {i} {fmtFloat s}") s!"tf {r.length}")
+    | none => (d, "bad-op")
+  | ["mpq", h] =>
+    match Bytes.ofHex h with
+    | some q =>
+      let n : NlpOut Float := Boosts.nlpOut d.ri d.db.toList q
+      let a := (Nlp.analyse d.ri q).1
+      (d, s!"pq {fmtBytesList n.actions} {fmtBytesList n.targets} {fmtBytesList n.keywords} {fmtBytesList n.enhanced} {Bytes.toHex a.intent}")
+    | none => (d, "bad-op")
+  | ["mctx", h] =>
+    match Bytes.ofHex h with
+    | some q =>
+      let an := Nlp.analyse d.ri q
+      let x := Boosts.buildCtx Boosts.genSpec d.ri an.1 an.2
+      (d, s!"ctx {fmtBytesList x.actionTerms} {fmtBytesList x.targetTerms} {fmtBytesList x.keywordTerms} {fmtBytesList x.hints} {fmtBytesList x.contexts} {Bytes.toHex x.intent}")
+    | none => (d, "bad-op")
+  | ["mib", h] =>
+    match Bytes.ofHex h with
+    | some q =>
+      let n : NlpOut Float := Boosts.nlpOut d.ri d.db.toList q
+      (d, "ib " ++ fmtFloatList ((List.range d.db.size).map n.intentBoost))
+    | none => (d, "bad-op")
+  | ["mcb", h] =>
+    match Bytes.ofHex h with
+    | some q =>
+      let n : NlpOut Float := Boosts.nlpOut d.ri d.db.toList q
+      (d, "cb " ++ fmtFloatList ((List.range d.db.size).map n.cascade))
     | none => (d, "bad-op")
   | ["bufcap", t, l] =>
     match intOf? t, intOf? l with
